@@ -193,3 +193,10 @@ func verifNumConns() int                 { return 0 }
 func verifEndpointLog(k int) []byte      { return nil }
 func verifEndpointClose(k int)           {}
 func verifEndpointStall(k int, on bool)  {}
+
+// ---- http model observation (native twins: not implemented; engine-only harnesses)
+func verifHTTPAcked() []byte          { return nil }
+func verifHTTPAttempts() int          { return 0 }
+func verifHTTPFailures() int          { return 0 }
+func verifHTTPMaxFailures(n int)      {}
+func verifHTTPRetriedSameBatch() bool { return true }
